@@ -32,7 +32,7 @@ EXTRA = ["phy_bus", "phy_r04", "phy_r0A", "phy_other", "phy_writes", "spec_act",
 
 
 def gen_cases(tier, rng):
-    n_utmi, n_tx = {"quick": (96, 48), "widen": (400, 200)}.get(tier, (700, 300))
+    n_utmi, n_tx = {"quick": (96, 48), "widen": (400, 200)}.get(tier, (400, 200))
     out = []
     for k in range(n_utmi):
         out.append({"kind": "utmi", "seed": rng.u64(), "k": k})
@@ -94,6 +94,7 @@ def monitor_utmi(rows_in, rows_out, tags):
     # UTMI-side packets
     utmi = []
     cur = None
+    stall = 0
     for t, (ri, ro) in enumerate(zip(rows_in, rows_out)):
         dir_, nxt = ri[I["dir"]], ri[I["nxt"]]
         bus, stp = ro[O["data_o"]], ro[O["stp"]]
@@ -105,6 +106,14 @@ def monitor_utmi(rows_in, rows_out, tags):
         extra.append([U.bus_code(obs.state), obs.regs[4], obs.regs[10], obs.other_writes, len(obs.writes)])
         if ro[O["tx_ready"]] and not nxt and not fails:
             fails.append({"cycle": t, "sig": "tx-ready-without-nxt", "what": "tx_ready high while NXT is low"})
+        # liveness watchdog: a transmission must reach the PHY (bounded NXT delays, short register writes)
+        if ri[I["tx_valid"]] and not ro[O["tx_ready"]] and not dir_:
+            stall += 1
+            if stall > 200 and not fails:
+                fails.append({"cycle": t, "sig": "tx-never-accepted", "what":
+                              "tx_valid has waited %d DIR-low cycles without a tx_ready" % stall})
+        elif not dir_:
+            stall = 0
         if ri[I["tx_valid"]]:
             if cur is None:
                 cur = {"start": t, "acc": [], "op": ri[I["op_mode"]], "dirty": False, "end": None}
